@@ -747,6 +747,41 @@ static void variant_narrowing(uint64_t& idx)
   }
 }
 
+// narrowing load of a whole ARRAY: every element is range-checked and converted; an element checked on one read and
+// converted from another would again show up as a truncated value
+template<class T>
+static void variant_narrowing_array(uint64_t& idx)
+{
+  const uint64_t off = 0x4800;
+  const uint64_t GW = sizeof(rlbox::tainted_volatile<T, SB>);
+  std::string tag = std::string("narrowing<") + tname<T>() + "[3]> guest width " + std::to_string(GW);
+  auto setup = [=] {
+    // the adversary's moves act on element 1 (src_off / src_len)
+    g_sc = Scenario{ off + GW, GW, off - 16, 3 * GW + 48, false };
+    memset(g_mem + off - 16, 0, 3 * GW + 48);
+    for (int i = 0; i < 3; i++) {
+      uint64_t v = 7;
+      memcpy(g_mem + off + i * GW, &v, GW);
+    }
+  };
+  auto ok = [](T v) { return v == (T)7 || v == (T)9; };
+  Variant body = [=](Verdict& vd) {
+    auto p = sp<T[3]>(off);
+    std::array<T, 3> got{ 7, 7, 7 };
+    (*p).copy_and_verify([&](std::array<T, 3> a) { got = a; return 0; });
+    for (int i = 0; i < 3; i++)
+      if (!ok(got[i])) vd.problems.push_back("value-never-held: element " + std::to_string(i) + " of the array arrived as " + str((i128)got[i]) + ", which the guest cell never held");
+  };
+  explore("narrowing copy_and_verify(array)", tag, setup, body, { M_SETHIGH, M_SMALL2 }, idx);
+  Variant body2 = [=](Verdict& vd) {
+    auto p = sp<T[3]>(off);
+    tn<T[3]> t = *p;
+    for (int i = 0; i < 3; i++)
+      if (!ok(t[i].UNSAFE_unverified())) vd.problems.push_back("value-never-held: element " + std::to_string(i) + " of the loaded array is " + str((i128)t[i].UNSAFE_unverified()));
+  };
+  explore("narrowing load of an array", tag, setup, body2, { M_SETHIGH, M_SMALL2 }, idx);
+}
+
 template<class T, int GW>
 static void variant_deny(uint64_t off, size_t n, uint64_t& idx)
 {
@@ -800,6 +835,8 @@ int main(int argc, char** argv)
   variant_narrowing<int>(idx);
   variant_narrowing<unsigned>(idx);
   variant_narrowing<short>(idx);
+  variant_narrowing_array<int>(idx);
+  variant_narrowing_array<short>(idx);
   stat("evaluations", n_eval);
   stat("scripts", n_scripts);
   stat("nontrivial", n_nontriv);
